@@ -211,10 +211,11 @@ def run_unit(unit, defines=None, vacuity=False, rlimit=None, seed=None, tag='mai
         res['status'] = 'tool-error'
         if not res['tool_errors']:
             res['tool_errors'].append('verus produced no JSON summary; stderr: ' + p.stderr[-2000:])
-    if res['tool_errors'] and res['status'] == 'ok':
-        res['status'] = 'tool-error'
-    if res['status'] == 'ok' and res['failures']:
+    if res['failures']:
+        # real proof failures are reported even when another function also hit a resource limit (kept in tool_errors as a note)
         res['status'] = 'proof-failed'
+    elif res['tool_errors'] and res['status'] == 'ok':
+        res['status'] = 'tool-error'
     if res['status'] == 'ok' and res['errors'] and not res['failures']:
         res['status'] = 'tool-error'
         res['tool_errors'].append('verus reports %d errors but none was classified; stderr tail: %s' % (res['errors'], p.stderr[-1500:]))
